@@ -621,6 +621,19 @@ func run(sc vh.Scenario, dir string, rec *vh.Rec) {
 					break wind
 				}
 			}
+			// the exit report is sent before the plotter's wg.Done, i.e. before Stop can return: when the select above
+			// took Stop's return first, the report is already waiting
+			if res == "ok" && d.at != "exited" {
+				select {
+				case p := <-d.g.parked:
+					passed = append(passed, p.point)
+					d.at = p.point
+					if p.point == "exit" {
+						d.at = "exited"
+					}
+				case <-time.After(500 * time.Millisecond):
+				}
+			}
 			ev["res"], ev["passed"] = res, passed
 			if res == "ok" && d.at != "exited" {
 				ev["res"] = "plotter-not-exited"
@@ -724,7 +737,20 @@ func run(sc vh.Scenario, dir string, rec *vh.Rec) {
 		d.g.records = nil
 		d.g.mu.Unlock()
 		ev["records"] = recs
-		d.project(ev)
+		if ev["res"] != "hang" && ev["gate"] != "stuck" {
+			// the queries of the projection take the keeper's state lock: if they do not come back the keeper is wedged
+			pe := vh.Event{}
+			done := make(chan struct{})
+			go func() { defer close(done); d.project(pe) }()
+			select {
+			case <-done:
+				for k, v := range pe {
+					ev[k] = v
+				}
+			case <-time.After(callTimeout):
+				ev["res"], ev["proj"] = "hang", "queries after this step never returned"
+			}
+		}
 		rec.Emit(ev)
 		if ev["res"] == "hang" || ev["gate"] == "stuck" || ev["res"] == "panic" {
 			// the keeper is wedged: nothing more can be observed in this process; let it be torn down
